@@ -897,6 +897,43 @@ def refine_params(rng, kind, p, rows):
 
 
 # --------------------------------------------------------------------------
+# the same scene in other number representations
+# --------------------------------------------------------------------------
+DTYPES = ['float32', 'int16', 'int32', 'int64', 'uint8', 'uint16', 'uint32']
+
+
+def make_int_scene(rng):
+    """small non-negative integer pixel values (0..250): exactly representable in every DTYPE"""
+    n = rng.choice([15, 17, 21])
+    ny, nx = n, n + rng.choice([0, 2])
+    yy, xx = np.mgrid[0:ny, 0:nx]
+    img = np.zeros((ny, nx))
+    for _ in range(rng.randint(1, 5)):
+        y, x = (rng.randint(3, ny - 4), rng.randint(3, nx - 4)) if rng.random() < 0.7 else \
+            (rng.choice([0, 1, ny - 2, ny - 1]), rng.randrange(nx))
+        s = rng.choice([0.8, 1.0, 1.3, 1.8])
+        img += rng.choice([40, 80, 120]) * np.exp(-((xx - x) ** 2 + (yy - y) ** 2) / (2 * s * s))
+    img = np.rint(img) + np.array([[rng.randint(0, 3) for _ in range(nx)] for _ in range(ny)], float)
+    img = np.clip(img, 0, 250)
+    mask = None
+    if rng.random() < 0.25:
+        mask = np.array([[rng.random() < 0.05 for _ in range(nx)] for _ in range(ny)])
+    return img, mask
+
+
+def tables_equal(a, b, rtol):
+    """ids, number and order of rows identical; values equal to the precision of the representation"""
+    if a is None or b is None:
+        return a is None and b is None
+    if a[0] != b[0] or len(a[1]) != len(b[1]):
+        return False
+    for ra, rb in zip(a[1], b[1]):
+        if not np.allclose(ra, rb, rtol=rtol, atol=rtol, equal_nan=True):
+            return False
+    return True
+
+
+# --------------------------------------------------------------------------
 # run
 # --------------------------------------------------------------------------
 def run(ctx):
@@ -911,7 +948,9 @@ def run(ctx):
         '(0..7 Gaussians incl. at the frame and close pairs, mirror-symmetric frames, noise, negative '
         'background, NaN pixels, saturated plateaus, masks) x fwhm/ratio/theta or array kernels x thresholds '
         'incl. 0 x bounds placed exactly on measured statistics x peakmax x brightest x min_separation x '
-        'exclude_border x xycoords; non-trivial = at least one pixel/source qualifies')
+        'exclude_border x xycoords; representation: find_peaks and finder scenes with small non-negative integer '
+        'pixels re-run as float32/int16/int32/int64/uint8/uint16/uint32 and compared with the float64 run; '
+        'non-trivial = at least one pixel/source qualifies')
     ctx.assumptions += [
         'per-source statistics (sharpness, roundness, centroid, flux, peak ...) and the convolution are library '
         'numerics: the model takes the values the real raw catalog measured as inputs',
@@ -926,7 +965,10 @@ def run(ctx):
         '(min_separation_partial); tied peaks inside the separation are a known finding',
         'constant images: find_peaks returns None by an early exit although every pixel qualifies (known finding); '
         'find_peaks_spec / find_peaks_none_iff state the early exit explicitly',
-        'the density-enhancement kernel (shape, mask, zero sum, relerr) and threshold_eff are tested, not modelled']
+        'the density-enhancement kernel (shape, mask, zero sum, relerr) and threshold_eff are tested, not modelled',
+        'number representation: integer images (signed/unsigned) must give exactly the float64 output and '
+        'float32 must give exactly the float64 find_peaks output; float32 star-finder runs are only recorded '
+        '(single-precision convolution changes marginal noise peaks)']
     quick = ctx.tier == 'quick'
     rng = ctx.rng
     terms, meta = [], []
@@ -1072,6 +1114,91 @@ def run(ctx):
         terms.append(coq_filter(kind, p, res))
         meta.append(('finder-filter', d, not errs))
 
+    # ---------------- the same scene stored as float32 / signed / unsigned integers ----------------
+    # (pixel values are small non-negative integers: every representation holds them exactly, so the
+    #  finders must select the same sources as for the float64 image)
+    n_dp = 40 if quick else 400
+    for i in range(n_dp):
+        c = gen_peaks(rng, small=False)
+        if c['kind'] == 'const':
+            continue
+        d = np.nan_to_num(np.abs(np.rint(c['data'] * 4)), nan=1.0, posinf=9.0, neginf=0.0)
+        c = dict(c, data=np.clip(d, 0, 200), thr=(abs(c['thr']) * 2 if np.isscalar(c['thr']) and c['thr'] == c['thr']
+                                                  else 1.5))
+        ref = peaks_rows(run_peaks(c))
+        for dt in DTYPES:
+            c2 = dict(c, data=c['data'].astype(dt))
+            try:
+                got = peaks_rows(run_peaks(c2))
+            except Exception as e:
+                got = 'error: ' + repr(e)[:100]
+            ctx.stat('dtype find_peaks', dt)
+            dd = dict(describe_peaks(c), dtype=dt)
+            ctx.count_case(dd, ref is not None)
+            same = got == ref if (c['npeaks'] is None or ref is None or isinstance(got, str)) else \
+                (got is not None and got[0] == ref[0] and sorted(r[2] for r in got[1]) == sorted(r[2] for r in ref[1])
+                 and not oracle_peaks(c, got))
+            if not same:
+                ctx.violation('find_peaks:data-dtype', f'the result for the same image stored as {dt} differs from '
+                              'the float64 result', {'case': dd, 'float64': ref, dt: got})
+        terms.append(coq_peaks(c, ref))
+        meta.append(('peaks', describe_peaks(c), not oracle_peaks(c, ref)))
+    n_df = 18 if quick else 180
+    for i in range(n_df):
+        kind = ['DAO', 'IRAF', 'SF'][i % 3]
+        data, mask = make_int_scene(rng)
+        p = gen_finder_params(rng, kind)
+        if kind != 'SF' and rng.random() < 0.5:
+            p.update(sharplo=-1e3, sharphi=1e3, roundlo=-1e3, roundhi=1e3)
+        if rng.random() < 0.3:
+            p['brightest'] = rng.randint(1, 4)
+        if rng.random() < 0.3:
+            p['peakmax'] = rng.choice([60.0, 100.0])
+        try:
+            ref = run_finder(kind, p, data, mask)
+        except Exception as e:
+            ctx.violation(f'{kind}:exception:{type(e).__name__}', f'finder raised {e!r}'[:200],
+                          describe_finder(kind, p, data, mask))
+            continue
+        for sig, what in oracle_finder(kind, p, data, mask, ref):
+            ctx.violation(sig, what, dict(describe_finder(kind, p, data, mask), cmd='bin/check C14 --replay <this file>'))
+        who = {'DAO': 'DAOStarFinder', 'IRAF': 'IRAFStarFinder', 'SF': 'StarFinder'}[kind]
+        dts = [rng.choice(['uint8', 'uint16', 'uint32']), rng.choice(['int16', 'int32', 'int64']), 'float32']
+        for dt in dts[:2] if i % 2 else dts:
+            d2 = data.astype(dt)
+            dd = dict(describe_finder(kind, p, data, mask), dtype=dt)
+            ctx.stat('dtype finder', f'{kind}/{dt}')
+            ctx.count_case(dd, ref['table'] is not None)
+            try:
+                res = run_finder(kind, p, d2, mask)
+            except Exception as e:
+                ctx.violation(f'{who}:data-dtype', f'finder raised {e!r} for the image stored as {dt}'[:200], dd)
+                continue
+            # float32: the convolution and the statistics are computed in single precision
+            rtol = 2e-3 if dt == 'float32' else 1e-9
+            same_pos = (res['xypos'] == ref['xypos'])
+            if dt == 'float32':
+                # single-precision convolution legitimately creates/destroys marginal noise maxima and moves
+                # statistics by ~1e-7: recorded, not required (the integer representations are exact)
+                ctx.stat('dtype finder float32', 'same positions and table' if same_pos and
+                         tables_equal(res['table'], ref['table'], rtol) else
+                         ('same table' if tables_equal(res['table'], ref['table'], rtol) else 'differs'))
+                ctx.support('float32 image vs float64 image (recorded only)')
+                continue
+            if not (same_pos and tables_equal(res['table'], ref['table'], rtol)):
+                ctx.violation(f'{who}:data-dtype', f'the output for the same image stored as {dt} differs from the '
+                              'float64 output (detected positions, ids, membership, order or values)',
+                              dict(dd, float64_ids=None if ref['table'] is None else ref['table'][0],
+                                   other_ids=None if res['table'] is None else res['table'][0],
+                                   float64_npeaks=None if ref['xypos'] is None else len(ref['xypos']),
+                                   other_npeaks=None if res['xypos'] is None else len(res['xypos'])))
+            if dt != 'float32':
+                errs = oracle_finder(kind, p, d2.astype(float), mask, res)
+                for sig, what in errs:
+                    ctx.violation(sig, what, dict(dd, cmd='bin/check C14 --replay <this file>'))
+                terms.append(coq_filter(kind, p, res))
+                meta.append(('finder-filter', dd, not errs))
+
     # ---------------- the density-enhancement kernel (support test) ----------------
     from photutils.detection.core import _StarFinderKernel
     for _ in range(60 if quick else 600):
@@ -1120,6 +1247,10 @@ def replay(obj):
     c = r.get('case', r)
     if c.get('kind') == 'find_peaks':
         case = undescribe_peaks(c)
+        if c.get('dtype'):
+            ref = peaks_rows(run_peaks(case))
+            got2 = peaks_rows(run_peaks(dict(case, data=case['data'].astype(c['dtype']))))
+            print(c['dtype'], ':', got2, '\nfloat64 :', ref)
         got = peaks_rows(run_peaks(case))
         errs = oracle_peaks(case, got)
         ok = not errs
@@ -1141,12 +1272,20 @@ def replay(obj):
         data = unjarr(c['data'])
         mask = None if c['mask'] is None else np.array(c['mask'], bool)
         p = dict(c['params'])
+        other = c.get('dtype')
         if p.get('kernel') is not None:
             p['kernel'] = tuple(p['kernel'])
         if p.get('xycoords') is not None:
             p['xycoords'] = [tuple(q) for q in p['xycoords']]
         res = run_finder(c['finder'], p, data, mask)
         errs = oracle_finder(c['finder'], p, data, mask, res)
+        if other:
+            r2 = run_finder(c['finder'], p, data.astype(other), mask)
+            if not (r2['xypos'] == res['xypos'] and
+                    tables_equal(r2['table'], res['table'], 2e-3 if other == 'float32' else 1e-9)):
+                errs.append(('data-dtype', f'output for {other} differs from float64'))
+            print(f'{other}: n_peaks', None if r2['xypos'] is None else len(r2['xypos']),
+                  'ids', None if r2['table'] is None else r2['table'][0])
         print('raw positions:', res['xypos'])
         print('table ids:', None if res['table'] is None else res['table'][0])
         print('property holds on this input' if not errs else f'property FAILS on this input: {errs}')
